@@ -2,22 +2,23 @@
 import sys, os, random, re, ipaddress
 from urllib import parse as _uparse
 import gen_C15
+import gen_C11
 
 ID = 'C15'
-GEN = [('Gen/C15_Netutils.v', gen_C15.generate)]
+# the text-level model reuses C11's models of IPNetwork / is_valid_ipv4 / is_valid_ipv6 (Model/C11.v over Gen/C11_Netutils.v)
+GEN = [('Gen/C15_Netutils.v', gen_C15.generate), ('Gen/C11_Netutils.v', gen_C11.generate), ('Gen/C11_Code.v', gen_C11.generate_code)]
 EQUIV_FILES = ['Proofs/C15.v']
 EXTRACT = 'Extract/C15_x.v'
 
 TRUSTED = [
-    'netaddr: the TEXT parsing of MAC addresses and prefixes (netaddr.EUI(str), netaddr.IPNetwork(str).first, valid_ipv4/valid_ipv6) is an '
-    'oracle: the harness hands the parsed integers or the class of the exception to the model; modelled in Coq and tied by correspondence: '
-    'EUI.eui64() arithmetic, IPAddress(int)/EUI(int) range checks, the operators of IPAddress used by get_mac_addr_by_ipv6',
-    'the exception clause (IPv4 prefix, malformed prefix/MAC -> ValueError or TypeError) is proved for oslo\'s own logic (guards + except '
-    'clauses, regenerated from the AST) given the class netaddr raised; that netaddr raises for malformed text is tested, not proved',
-    'urllib.parse.urlsplit / parse_qsl are contracts: (a) the path urlsplit returns contains no "?" and, when fragments are allowed, no "#"; '
-    '(b) parse_qsl returns a list of (str, str) pairs — both tested on every generated URL/query; is_valid_ipv6 (escape_ipv6) is an abstract '
-    'predicate in the theorems (its verdict is passed to the model)',
-    'CPython int()/str() modelled in Base/PyInt.v; str.split/count/in modelled in Base/Str.v, Base/C15_PyVal.v',
+    'No parsing oracle is left for text arguments: netaddr.IPNetwork(text) (value, prefix length, first), is_valid_ipv4, is_valid_ipv6 are the '
+    'Coq models of C11 (Model/C11.v, extended in Model/C15_Text.v), netaddr.EUI(text) is the Coq recogniser of Model/C15_Text.v '
+    '(RE_MAC_FORMATS / RE_EUI64_FORMATS / int() fall-back), str(EUI) the printer there; all tied to netaddr 1.3.0 / glibc by correspondence '
+    '(ops euitext, euiparse, net, mactext, hosttext) — that the libraries behave like these models is tested, not proved',
+    'still oracle inputs: the exception CLASS netaddr raises for NON-TEXT arguments (None, float, list, bytes prefix/MAC) of get_ipv6_addr_by_EUI64; '
+    'urllib.parse.urlsplit (contract: no "?" in the returned path, no "#" when fragments are allowed) and urllib.parse.parse_qsl (contract: a list '
+    'of (str, str) pairs) — both contracts are premises of the theorems and are tested on every generated URL / query',
+    'CPython int()/str() modelled in Base/PyInt.v (+ C11_Lib.py_int_str); str.split/rsplit/count/in modelled in Base/Str.v, Base/C15_PyVal.v',
 ]
 ASSUMPTIONS = [
     'parse_host_port: None and "" are identified (both falsy); int() digit-count limit (4300) not modelled',
@@ -224,6 +225,53 @@ def case_eui(rng):
     c.update(rand_prefix(rng)); c.update(rand_mac(rng))
     return c
 
+HEXD = '0123456789abcdefABCDEF'
+def rand_eui_text(rng):
+    r = rng.random()
+    if r < 0.30: return mac_text(rng, rand_mac48(rng))
+    if r < 0.40:
+        v = rng.getrandbits(64); h = '%016x' % v
+        k = rng.randrange(4)
+        if k == 0: return ':'.join(h[i:i + 2] for i in range(0, 16, 2))
+        if k == 1: return '-'.join(h[i:i + 4] for i in range(0, 16, 4)).upper()
+        if k == 2: return '.'.join(h[i:i + 4].lstrip('0') or '0' for i in range(0, 16, 4))
+        return h
+    if r < 0.60:
+        # word grids: n words of len lo..hi with a separator (all RE_MAC/RE_EUI64 shapes and near misses)
+        sep = rng.choice([':', '-', '.', ':', '-', '', ';'])
+        n = rng.choice([1, 2, 3, 4, 5, 6, 7, 8, 9])
+        L = rng.choice([(1, 2), (1, 4), (5, 6), (1, 6), (2, 2), (4, 4), (6, 6), (1, 3)])
+        ws = [''.join(rng.choice(HEXD) for _ in range(rng.randint(*L))) for _ in range(n)]
+        t = sep.join(ws)
+        if rng.random() < 0.15: t += rng.choice(['\n', '\n\n', ' ', '\r\n', 'g'])
+        if rng.random() < 0.08: t = rng.choice(['\n', ' ', 'x']) + t
+        return t
+    if r < 0.72:
+        n = rng.choice([10, 11, 12, 13, 15, 16, 17])
+        return ''.join(rng.choice(HEXD if rng.random() < 0.7 else '0123456789') for _ in range(n))
+    if r < 0.90:
+        return rng.choice(['0', '1', ' 12 ', '1234567', '٣', '-1', '+5', '1_0', '281474976710655', '281474976710656', '18446744073709551615',
+                           '18446744073709551616', '99999999999999999999999', '12\x1f', '\t7\n', '0x10', '1e3', '00', '007', '٠٠:16:3e:33:44:55',
+                           str(rng.getrandbits(rng.choice([8, 40, 47, 48, 49, 63, 64, 65])))])
+    return rng.choice(BAD_MACS + ['1.2.3.4', '1-2-3-4-5-6', 'aa:bb:cc:dd:ee:ff\n', 'AA-BB-CC-DD-EE-FF', 'aabb.ccdd.eeff', 'aabbcc-ddeeff', 'aabbc:ddeef',
+                                  'aa:bb:cc:dd:ee:ff:00:11', 'ſa:bb:cc:dd:ee:ff', 'Aa:bB:cc:dd:ee:ff', 'a:b:c:d:e:f', 'a-b-c', 'a.b.c', 'a.b.c.d', ''])
+
+def rand_net_text(rng):
+    r = rng.random()
+    if r < 0.45: return rand_prefix(rng)['prefix'] if rng.random() < 0.9 else 'x'
+    a6 = v6_text(rng, rand_v6(rng)); a4 = str(ipaddress.IPv4Address(rng.getrandbits(32)))
+    if r < 0.60:
+        j = rng.randint(0, 128); m = rng.choice([(1 << 128) - (1 << j), (1 << j) - 1, rng.getrandbits(128), ((1 << 128) - (1 << j)) ^ (1 << rng.randrange(128))]) % (1 << 128)
+        return a6 + '/' + v6_text(rng, m)
+    if r < 0.72:
+        j = rng.randint(0, 32); m = rng.choice([(1 << 32) - (1 << j), (1 << j) - 1, rng.getrandbits(32)]) % (1 << 32)
+        return a4 + '/' + str(ipaddress.IPv4Address(m))
+    if r < 0.90:
+        a = rng.choice([a6, a4])
+        return a + '/' + rng.choice(['0', '1', '32', '33', '64', '128', '129', ' 64', '64 ', '+64', '-0', '-1', '6_4', '٦٤', '064', '', ' ', '0x40', '64/64', '1e1', '\t8\n', '8\x1f', str(rng.randint(0, 140))])
+    return rng.choice([a4 + '/' + a6, a6 + '/' + a4, a6 + '%eth0', a6 + '%eth0/64', '/' + a6, a6 + '//64', a4 + '\x00', a6.replace(':', '.', 1), '::/::', '::/ffff::', '0.0.0.0/0.0.0.0',
+                       '1.2.3.4/255.255.255.255', '1.2.3.4/0.0.0.255', '1.2.3.4/255.0.255.0', '01.2.3.4/8', '1.2.3/8', '::ffff:1.2.3.4/120', '1::2::3', ':::', '::', '1:2:3:4:5:6:7:8:9'])
+
 def case_inv(rng):
     """an interface-identifier based address built without the implementation"""
     r = rng.random()
@@ -252,6 +300,10 @@ def gen_cases(rng, tier):
             yield {'op': 'parse', 'addr': a, 'd': d}
     for _ in range(2500 * k): yield case_eui(rng)
     for _ in range(800 * k): yield case_inv(rng)
+    for _ in range(1500 * k): yield {'op': 'euiparse', 'm': rand_eui_text(rng)}
+    for _ in range(1500 * k): yield {'op': 'net', 'p': rand_net_text(rng)}
+    for _ in range(400 * k):
+        yield {'op': 'mactext', 'v': ((rng.getrandbits(64) << 64) | meui64(rand_mac48(rng))) if rng.random() < 0.7 else (rng.getrandbits(128) | (1 << 33))}
     for _ in range(2500 * k):
         h, fam = rand_host(rng)
         yield {'op': 'hostport', 'host': h, 'port': rng.choice(PORTS) if rng.random() < 0.6 else rng.randint(0, 65535), 'd': rand_default(rng)}
@@ -325,6 +377,23 @@ def impl(c):
         except Exception as e:
             return _cls(e)
         return '%d %d' % (e.version, int(e))
+    if op == 'euiparse':
+        try:
+            e = netaddr.EUI(c['m'])
+        except Exception as ex:
+            return _cls2(ex)
+        return '%d %d' % (e.version, int(e))
+    if op == 'net':
+        try:
+            n_ = netaddr.IPNetwork(c['p'])
+        except Exception as ex:
+            return _cls2(ex)
+        return '%d %d %d %d' % (n_.version, n_.value, n_.prefixlen, n_.first)
+    if op == 'mactext':
+        try:
+            return S(str(nu.get_mac_addr_by_ipv6(netaddr.IPAddress(c['v'], 6))))
+        except Exception as ex:
+            return _cls2(ex)
     if op == 'parse':
         return _hp(nu.parse_host_port, c['addr'], _dflt(c['d']))
     if op == 'hostport':
@@ -354,6 +423,11 @@ def impl(c):
         return '%s %s D:%s' % (out[0], out[1], 'same' if dflt == out[0] else dflt)
     raise KeyError(op)
 
+def _cls2(e):
+    import netaddr
+    if isinstance(e, netaddr.AddrFormatError): return 'EXN:AddrFormatError'
+    return _cls(e)
+
 def _libtag(e):
     import netaddr
     if isinstance(e, netaddr.AddrFormatError): return 'A'
@@ -368,6 +442,10 @@ def encode(c):
     if op == 'eui':
         p, m = _pyvals(c)
         is_str = isinstance(p, str)
+        # text prefix and text / int MAC: the model works end to end on the text (no oracle input)
+        if is_str and isinstance(m, str): return ['euitext', p, 'S', m]
+        if is_str and isinstance(m, int) and not isinstance(m, bool): return ['euitext', p, 'I', m]
+        # non-text arguments (None, float, list, bytes): the class netaddr raises is passed in
         def flag(strict):
             try: return bool(nu.is_valid_ipv4(p, strict))
             except Exception: return False
@@ -386,7 +464,10 @@ def encode(c):
     if op == 'parse':
         return ['parse', c['addr'] or '', c['d'][0], c['d'][1]]
     if op == 'hostport':
-        return ['hostport', bool(nu.is_valid_ipv6(c['host'])), c['host'], c['port'], c['d'][0], c['d'][1]]
+        return ['hosttext', c['host'], c['port'], c['d'][0], c['d'][1]]
+    if op == 'euiparse': return ['euiparse', c['m']]
+    if op == 'net': return ['net', c['p']]
+    if op == 'mactext': return ['mactext', c['v']]
     if op == 'url':
         try:
             l = _uparse.urlsplit(c['url'], c['scheme'], c['allow'])
@@ -518,7 +599,9 @@ def search(rng, budget):
     for _ in range(budget):
         yield from gen_cases(rng, 'quick')
 
-LEVEL_TEXT = ('Theorems for all 48-bit MACs and all prefixes: the value get_ipv6_addr_by_EUI64 returns (network address + modified EUI-64 when the low 64 '
+LEVEL_TEXT = ('End to end on TEXT (prefix text through C11\'s IPNetwork/is_valid_ipv4 models, MAC text through a netaddr.EUI recogniser, escape_ipv6 through C11\'s '
+              'is_valid_ipv6): value, MAC round trip through the printed text, exception clause, host:port round trip for every RFC 4291 text with optional scope. '
+              'Theorems for all 48-bit MACs and all prefixes: the value get_ipv6_addr_by_EUI64 returns (network address + modified EUI-64 when the low 64 '
               'bits of the network address are clear; arithmetic + otherwise), the MAC round trip through get_mac_addr_by_ipv6, the exception clause for '
               'oslo\'s guards/handlers; exact characterisation (iff) of the hosts for which parse_host_port(escape_ipv6(h) + ":" + port) and the default-port '
               'form round-trip, for every integer port; params() last-wins / all-values over any list of pairs; urlsplit post-processing is the '
